@@ -323,7 +323,8 @@ PROPS = {
                      "obtain_leaf_vertices is used through an assumed contract (returns some array, modifies nothing).",
                 technique="per-call contract with representation invariant consistent(accessor, latter_map) + loop invariants on the score table + bounded removal sequences"),
     "C20": dict(title="Library calls are stateless and never modify their arguments", level="other", bounded=["C20"], design="8/C20",
-                proof=["frame:*", "dsw.spiderweb.create_random_shuffles#seed", "lemma.ipow_mono"],
+                proof=["frame:*", "dsw.spiderweb.create_random_shuffles#seed", "dsw.operation.Monitor.__call__#idle", "dsw.operation.Monitor.__call__#running",
+                       "lemma.ipow_mono"],
                 explanation="STATIC FRAME PROOF over the real ASTs of EVERY function of dsw/operation.py, graphized.py, spiderweb.py (flow-sensitive may-alias "
                             "analysis, numpy views vs copies): (1) every store (item / augmented / del / append / insert / shuffle / attribute) targets an object "
                             "allocated in the current call - never a parameter or a view of one (arc removal excepted for its two documented in-place "
@@ -332,8 +333,13 @@ PROPS = {
                             "block guarded by `verbose` consists of print / monitor expression statements only: it binds nothing and cannot leave, so "
                             "turning progress output on cannot change a result.  In addition the contracts of the functions proved under C01..C18 "
                             "carry the frame obligation for each of their stores, and create_random_shuffles is proved to depend on (length, seed) "
-                            "only.  BOUNDED: that verbose output never RAISES and the fresh-process comparison (snapshot histories, B2).",
-                demoted=["verbose output never raises - bounded B2", "fresh-process equality - bounded B2 (follows from (1)+(2) for the modelled sources of state)"],
+                            "only.  PROVED on the real Monitor.__call__ (idle and running receiver): under the precondition 'nothing to report yet (current == 0) or a "
+                            "non-empty job (total != 0)' its two divisions cannot raise and it returns None; that precondition is an obligation at every "
+                            "monitor call site of the functions verified under C01..C19 (the percentage, times and the display text are opaque: string "
+                            "formatting statements are skipped, floats are finite by assumption).  BOUNDED: the text-formatting statements of the monitor, "
+                            "verbose runs of functions not under contract, and the fresh-process comparison (snapshot histories, B2).",
+                demoted=["verbose output never raises: text formatting inside Monitor and functions not under contract - bounded B2",
+                         "fresh-process equality - bounded B2 (follows from (1)+(2) for the modelled sources of state)"],
                 claim="Static (all inputs, all interleavings) for the frame / purity / verbose-shape obligations; bounded for the two clauses above.",
                 note="Trusted: the view-versus-copy table in pyvc/frame.py (basic indexing, .T, reshape, row iteration are views; fancy / boolean-mask "
                      "indexing, .tolist(), list(), array(), arithmetic and every call result are copies); Monitor instances are call-local.",
